@@ -1,6 +1,7 @@
 import BleveModel.Model.Query
 import BleveModel.Props.BoolSearcher
 import BleveModel.Props.ConjSearcher
+import BleveModel.Props.DisjSearcher
 set_option linter.unusedVariables false
 set_option linter.unusedSimpArgs false
 /-!
@@ -247,6 +248,73 @@ theorem conj_query_searcher_correct (w : Bleve.BoolSearcher.Weird) (q : Q) (qs :
     List.Pairwise.imp (fun h => Nat.ne_of_lt h) hasc
   rw [den_conj q qs docs hinj]
   apply Bleve.ConjSearcher.conj_searcher_correct
+  intro l hl
+  obtain ⟨x, _, rfl⟩ := List.mem_map.1 hl
+  rw [den_eq_predList]
+  exact predList_asc docs hasc _
+
+/-! ## the disjunction -/
+
+theorem countTrue_eq (qs : List Q) (docs : List Doc) (hinj : docs.Pairwise (fun a b => a.iid ≠ b.iid))
+    (d : Doc) (hd : d ∈ docs) :
+    Bleve.DisjSearcher.cnt (qs.map (fun q => den q docs)) d.iid = countTrue qs d := by
+  induction qs with
+  | nil => rw [countTrue.eq_def]; rfl
+  | cons q qs ih =>
+    rw [countTrue.eq_def]
+    simp only
+    unfold Bleve.DisjSearcher.cnt at ih ⊢
+    simp only [List.map_cons, List.filter_cons]
+    have hc : (den q docs).contains d.iid = eval q d := by
+      rw [den_eq_predList]; unfold predList
+      exact contains_filter_map_iid (eval q) docs d hinj hd
+    rw [hc]
+    by_cases he : eval q d = true
+    · simp only [he, if_true, List.length_cons]
+      rw [ih]; omega
+    · have he' : eval q d = false := by simpa using he
+      simp only [he', Bool.false_eq_true, if_false]
+      rw [ih]; omega
+
+/-- **The meaning of a disjunction with a minimum is what the disjunction searcher enumerates.** -/
+theorem den_disj (min : Nat) (qs : List Q) (docs : List Doc)
+    (hasc : docs.Pairwise (fun a b => a.iid < b.iid)) :
+    den (.disj min qs) docs = Bleve.DisjSearcher.disjDen (qs.map (fun x => den x docs)) min := by
+  have hinj : docs.Pairwise (fun a b => a.iid ≠ b.iid) :=
+    List.Pairwise.imp (fun h => Nat.ne_of_lt h) hasc
+  apply Bleve.DisjSearcher.asc_ext
+  · rw [den_eq_predList]; exact predList_asc docs hasc _
+  · exact Bleve.DisjSearcher.disjDen_asc _ _
+  · intro d
+    rw [Bleve.DisjSearcher.mem_disjDen, den_eq_predList]
+    unfold predList
+    rw [List.mem_map]
+    constructor
+    · rintro ⟨doc, hdoc, rfl⟩
+      obtain ⟨hmem, hev⟩ := List.mem_filter.1 hdoc
+      rw [eval_disj] at hev
+      rw [countTrue_eq qs docs hinj doc hmem]
+      simpa using hev
+    · intro h
+      have hpos : 0 < Bleve.DisjSearcher.cnt (qs.map (fun x => den x docs)) d := by omega
+      obtain ⟨l, hl, hdl⟩ := (Bleve.DisjSearcher.cnt_pos_iff _ d).1 hpos
+      obtain ⟨q, _, rfl⟩ := List.mem_map.1 hl
+      rw [den_eq_predList] at hdl
+      unfold predList at hdl
+      obtain ⟨doc, hdoc, rfl⟩ := List.mem_map.1 hdl
+      have hmem := (List.mem_filter.1 hdoc).1
+      refine ⟨doc, List.mem_filter.2 ⟨hmem, ?_⟩, rfl⟩
+      rw [eval_disj]
+      rw [countTrue_eq qs docs hinj doc hmem] at h
+      simpa using h
+
+/-- **End to end for the disjunction** (the slice searcher, up to ten clauses). -/
+theorem disj_query_searcher_correct (w : Bleve.BoolSearcher.Weird) (min : Nat) (qs : List Q) (docs : List Doc)
+    (hasc : docs.Pairwise (fun a b => a.iid < b.iid)) (ops : List Bleve.BoolSearcher.Op) :
+    Bleve.DisjSearcher.runImpl w (Bleve.DisjSearcher.init (qs.map (fun x => den x docs)) min) ops =
+    Bleve.BoolSearcher.runSpec (den (.disj min qs) docs) ops := by
+  rw [den_disj min qs docs hasc]
+  apply Bleve.DisjSearcher.disj_searcher_correct
   intro l hl
   obtain ⟨x, _, rfl⟩ := List.mem_map.1 hl
   rw [den_eq_predList]
